@@ -409,7 +409,8 @@ func (fc *FCtx) evalBuiltin(name string, e *ast.CallExpr, st *State) []Val {
 			oos("len of %s", x.S.Name)
 		case KMap:
 			fn := fc.mapCard(x.S)
-			st.assume(fmt.Sprintf("(>= %s 0)", app(fn, x.T)))
+			// len of a Go map value is an int (stated for this program value only, not as an axiom about all map terms)
+			st.assume(fmt.Sprintf("(and (>= %s 0) (<= %s 9223372036854775807))", app(fn, x.T), app(fn, x.T)))
 			return []Val{{T: app(fn, x.T), S: SInt, GoT: intT}}
 		}
 		oos("len of %s", x.S.Name)
@@ -425,7 +426,7 @@ func (fc *FCtx) evalBuiltin(name string, e *ast.CallExpr, st *State) []Val {
 			if len(e.Args) > 2 {
 				c = fc.eval(e.Args[2], st)
 			}
-			fc.panicCheck(st, "make-len", fmt.Sprintf("(and (<= 0 %s) (<= %s %s))", n.T, n.T, c.T), e.Pos())
+			fc.panicCheck(st, "make-len", fmt.Sprintf("(and (<= 0 %s) (<= %s %s) (<= %s 9223372036854775807))", n.T, n.T, c.T, c.T), e.Pos()) // makeslice: len/cap out of range
 			et := elemType(t)
 			return []Val{{T: mkSlice(s, n.T, c.T, fc.constArray("Int", s.Elem, fc.zeroTerm(s.Elem, et))), S: s, GoT: t}}
 		case KMap:
@@ -440,7 +441,7 @@ func (fc *FCtx) evalBuiltin(name string, e *ast.CallExpr, st *State) []Val {
 				if len(e.Args) > 2 {
 					c = fc.eval(e.Args[2], st)
 				}
-				fc.panicCheck(st, "make-len", fmt.Sprintf("(and (<= 0 %s) (<= %s %s))", n.T, n.T, c.T), e.Pos())
+				fc.panicCheck(st, "make-len", fmt.Sprintf("(and (<= 0 %s) (<= %s %s) (<= %s 9223372036854775807))", n.T, n.T, c.T, c.T), e.Pos()) // makeslice: len/cap out of range
 				b := fc.U.Fresh("mk", s)
 				fc.U.fresh++
 				iv := fmt.Sprintf("mi%d", fc.U.fresh)
